@@ -268,8 +268,12 @@ def run_check(prop, tier, seed, replay=None):
         return bool(rr['violation'])
 
     def triage(r):
-        """a violating result: shrink it, classify as known finding or new violation"""
-        small = shrink_case(prop, r['case'], oracle_fails) if r['violation'] else r['case']
+        """a violating result: shrink it (keeping the same kind of failure), classify as known finding or new violation"""
+        key0 = prop.finding_key(r['case'], r['violation'])
+        def same_failure(c):
+            rr = evaluate_cases(prop, [c])[0]
+            return bool(rr['violation']) and prop.finding_key(c, rr['violation']) == key0
+        small = shrink_case(prop, r['case'], same_failure) if r['violation'] else r['case']
         rr = evaluate_cases(prop, [small])[0]
         if not rr['violation']:
             small, rr = r['case'], r
@@ -280,7 +284,7 @@ def run_check(prop, tier, seed, replay=None):
                 return
         new_violations.append((small, rr))
 
-    for r in violations[:25]:
+    for r in violations[:6]:
         triage(r)
     for r in results:
         if r.get('known'):
